@@ -48,7 +48,6 @@ theorem release_race_is_reclaim_then_release (cfg : Cfg) (s : St) (r : Reachable
 
 /-! ### non-vacuity: process 1 watches file 7 of process 0; the job ends; process 0 starts its release, process 1 unlinks,
     process 0 finds nothing -/
-def evsW : List Ev := [.acquireBegin 0 7, .acquireEnd 0, .fsEvent 1, .fsEvent 1, .jobGone 7]
 
 example : Reachable2 cfgFixed (relEnd (apply cfgFixed (relBegin cfgFixed (run cfgFixed (init cfgFixed) evsW) 0 7).1 (.reclaim 1 7)).1 7).1 none := by
   have r0 : Reachable cfgFixed (run cfgFixed (init cfgFixed) evsW) := reachable_run cfgFixed evsW _ .init (by decide +kernel)
@@ -58,5 +57,28 @@ example : Reachable2 cfgFixed (relEnd (apply cfgFixed (relBegin cfgFixed (run cf
 example : let s := run cfgFixed (init cfgFixed) evsW
     7 ∈ (s.procs 0).cache ∧ 7 ∈ names s.disk ∧ 7 ∉ s.active ∧ enabled (relBegin cfgFixed s 0 7).1 (.reclaim 1 7) = true ∧
     (relEnd (apply cfgFixed (relBegin cfgFixed s 0 7).1 (.reclaim 1 7)).1 7).2 = false := by decide +kernel
+
+
+/-! ### what the atomic `reclaim` hides: the real watcher thread decides under the job lock and unlinks afterwards -/
+
+/-- negative witness (finding of this round, reproduced on the real code by `harness/xv/impl/c08x_stale_watcher_witness.py`):
+    when the unlink of a watcher thread is separated from its decision (`watchDecide` … `watchUnlink`, which is what
+    `TokenFile.watch` does: the job lock is given back before `self.delete()`), the owner can give the token back and take it
+    again for the same job in between; the stale thread then removes the file of the *running* job (`7 ∈ active`, no file),
+    process 1 takes the token of total 1 for job 8, and the jobs that hold the token ask 2 > 1.  Every step is enabled; the
+    decision itself is legitimate (`reclaim` is enabled when it is taken).  With the atomic `reclaim` of the model this
+    state is unreachable (`C08Files.running_capacity`): the guard `f ∉ active` of the model is an assumption the source
+    does not implement. -/
+theorem stale_watcher_unlink_breaks_capacity :
+    let s0 := run cfgFixed (init cfgFixed) evsW
+    let s1 := watchDecide s0 1 7
+    let s2 := run cfgFixed s1 evsRetry
+    let s3 := watchUnlink s2 7
+    let s4 := run cfgFixed s3 evsSecond
+    allEnabled cfgFixed (init cfgFixed) evsW = true ∧ enabled s0 (.reclaim 1 7) = true ∧
+    allEnabled cfgFixed s1 evsRetry = true ∧ 7 ∈ s2.active ∧ 7 ∈ names s2.disk ∧
+    7 ∈ s3.active ∧ 7 ∉ names s3.disk ∧
+    allEnabled cfgFixed s3 evsSecond = true ∧ s4.active = [8, 7] ∧ sumReq cfgFixed.req s4.active = 2 ∧ cfgFixed.total = 1 := by
+  decide +kernel
 
 end XpmVerif.C08Release
